@@ -897,5 +897,8 @@ func Run(tuplesPath, out string) {
 	for _, r := range res {
 		w.Put(r)
 	}
+	for _, op := range []string{"get", "post", "ping", "observe", "write"} {
+		w.Put(runHsFail(op))
+	}
 	_ = fmt.Sprint
 }
